@@ -168,6 +168,20 @@ func KillAndEvictPods(evictionExecutor EvictionExecutor, node *corev1.Node, task
 		if len(subReleaseListNoNegative(task.ToReleaseResource, releasedAll[releaseTarget])) == 0 {
 			continue
 		}
+		// First count every candidate that was evicted in a previous round and is still present (e.g. terminating),
+		// wherever it stands in the order, so that no fresh victim ahead of it is picked for pressure that is
+		// already being relieved.
+		for _, info := range podInfos {
+			podKey := util.GetPodKey(info.Pod)
+			if !evictedPodsMp[podKey] && evictionExecutor.IsPodEvicted(info.Pod) {
+				evictedPodsMp[podKey] = true
+				addResource(releasedAll, aggregateReleaseFunc(info))
+				klog.V(4).Infof("pod %s was evicted but still present, count as pending release, release reason: %v", podKey, releaseReason)
+			}
+		}
+		if len(subReleaseListNoNegative(task.ToReleaseResource, releasedAll[releaseTarget])) == 0 {
+			continue
+		}
 		for _, info := range podInfos {
 			podKey := util.GetPodKey(info.Pod)
 			if evictedPodsMp[podKey] {
